@@ -37,6 +37,9 @@ const (
 	ONot
 	OInSet // args[0] in set (256-bit)
 	OWrap  // wrap args[0] to bits/signed
+	OBitAnd // bitwise ops on non-negative bounded operands (bits = width used in the encoding)
+	OBitOr
+	OBitXor
 )
 
 type ByteSet [4]uint64
@@ -503,6 +506,42 @@ func (tb *TB) ModF(a *Term, c *big.Int) *Term {
 	if t.lo == nil && t.hi == nil {
 		t.lo = big.NewInt(0)
 		t.hi = new(big.Int).Sub(c, big.NewInt(1))
+	}
+	return t
+}
+
+// BitOp builds a bitwise and/or/xor of two terms known to lie in [0, 2^32); nil otherwise.
+func (tb *TB) BitOp(op Op, a, b *Term) *Term {
+	if a.lo == nil || b.lo == nil || a.hi == nil || b.hi == nil || a.lo.Sign() < 0 || b.lo.Sign() < 0 {
+		return nil
+	}
+	mx := a.hi
+	if b.hi.Cmp(mx) > 0 {
+		mx = b.hi
+	}
+	w := mx.BitLen()
+	if w > 32 {
+		return nil
+	}
+	width := uint8(8)
+	for int(width) < w {
+		width *= 2
+	}
+	if a.id > b.id {
+		a, b = b, a
+	}
+	t := tb.mk(&Term{op: op, sort: SInt, a: a, b: b, bits: width}, tkey{op: op, a: a.id, b: b.id})
+	if t.lo == nil && t.hi == nil {
+		t.lo = big.NewInt(0)
+		if op == OBitAnd {
+			h := a.hi
+			if b.hi.Cmp(h) < 0 {
+				h = b.hi
+			}
+			t.hi = h
+		} else {
+			t.hi = new(big.Int).Sub(new(big.Int).Lsh(big.NewInt(1), uint(w)), big.NewInt(1))
+		}
 	}
 	return t
 }
@@ -977,6 +1016,12 @@ func (e *evalEnv) eval(t *Term) int64 {
 		r = b2i(e.eval(t.a) == 0)
 	case OInSet:
 		r = b2i(t.set.Has(int(e.eval(t.a))))
+	case OBitAnd:
+		r = e.eval(t.a) & e.eval(t.b)
+	case OBitOr:
+		r = e.eval(t.a) | e.eval(t.b)
+	case OBitXor:
+		r = e.eval(t.a) ^ e.eval(t.b)
 	case OWrap:
 		x := e.eval(t.a)
 		lo, hi := cachedTypeRange(t.bits, t.signed)
@@ -1077,6 +1122,12 @@ func evalBig(t *Term, vals map[*Term]*big.Int, memo map[*Term]*big.Int) *big.Int
 	case OInSet:
 		x := ev(t.a)
 		r = b2i(x.IsInt64() && t.set.Has(int(x.Int64())))
+	case OBitAnd:
+		r = new(big.Int).And(ev(t.a), ev(t.b))
+	case OBitOr:
+		r = new(big.Int).Or(ev(t.a), ev(t.b))
+	case OBitXor:
+		r = new(big.Int).Xor(ev(t.a), ev(t.b))
 	case OWrap:
 		x := ev(t.a)
 		lo, _ := cachedTypeRange(t.bits, t.signed)
@@ -1123,7 +1174,7 @@ func (t *Term) write(sb *strings.Builder, depth int) {
 		t.a.write(sb, depth+1)
 		sb.WriteString(")")
 	default:
-		names := map[Op]string{OAdd: "+", OSub: "-", OMul: "*", ODivT: "quo", ORemT: "rem", ODivF: "div", OModF: "mod", OIte: "ite", OEq: "=", OLt: "<", OLe: "<=", OAnd: "and", OOr: "or", ONot: "not"}
+		names := map[Op]string{OAdd: "+", OSub: "-", OMul: "*", ODivT: "quo", ORemT: "rem", ODivF: "div", OModF: "mod", OIte: "ite", OEq: "=", OLt: "<", OLe: "<=", OAnd: "and", OOr: "or", ONot: "not", OBitAnd: "bitand", OBitOr: "bitor", OBitXor: "bitxor"}
 		sb.WriteString("(" + names[t.op])
 		for _, x := range []*Term{t.a, t.b, t.c} {
 			if x != nil {
